@@ -1,22 +1,533 @@
-//! probe (temporary)
-use redis_sim::production::{ConnectionConfig, ShardedActorState};
-use vharness::conn::run_handler;
-fn cfg(m: usize, t: usize) -> ConnectionConfig { ConnectionConfig { max_buffer_size: 1 << 20, read_buffer_size: 8192, min_pipeline_buffer: m, batch_threshold: t } }
-fn main() {
-    let rt = tokio::runtime::Builder::new_current_thread().enable_all().build().unwrap();
-    let cases: Vec<(&str, (usize, usize), Vec<&[u8]>)> = vec![
-        ("wf get+ping", (1, 2), vec![b"*3\r\n$3\r\nSET\r\n$1\r\nk\r\n$1\r\nv\r\n", b"*2\r\n$3\r\nGET\r\n$1\r\nk\r\n*1\r\n$4\r\nPING\r\n"]),
-        ("junk get", (1000, 2), vec![b"*3\r\n$3\r\nSET\r\n$1\r\nk\r\n$1\r\nv\r\n", b"*2\r\n$3\r\nGET\r\nX$1\r\nk\r\n*1\r\n$4\r\nPING\r\n"]),
-        ("junk get dropped", (1, 2), vec![b"*3\r\n$3\r\nSET\r\n$1\r\nk\r\n$1\r\nv\r\n", b"*2\r\n$3\r\nGET\r\nX$1\r\nk\r\n*1\r\n$4\r\nPING\r\n"]),
-        ("junk get overflow", (1000, 2), vec![b"*2\r\n$3\r\nGET\r\nX$18446744073709551615\r\nk\r\n"]),
-    ];
-    for (name, (m, t), chunks) in cases {
-        let r = std::panic::catch_unwind(|| {
-            rt.block_on(async {
-                let state = ShardedActorState::with_shards(1);
-                run_handler(state, cfg(m, t), chunks.iter().map(|c| c.to_vec()).collect()).await
-            })
-        });
-        match r { Ok((out, marks)) => println!("{}: {:?} {:?}", name, String::from_utf8_lossy(&out), marks), Err(_) => println!("{}: PANIC", name) }
+//! C04: pipelining - exactly one reply per command, in order, however the bytes arrive.
+//! Runs the REAL production connection handler (OptimizedConnectionHandler, verif-hooks) on a
+//! scripted in-memory stream over a real ShardedActorState (1 or 4 shards).
+//!
+//! Case kinds
+//!   seg   one stream, one segmentation into reads, one (min_pipeline_buffer, batch_threshold):
+//!         printed with the cumulative number of bytes written after every read and the final output
+//!   all2  one short stream: EVERY segmentation into 1, 2 and 3 reads is run on the implementation and
+//!         compared with the reference run; the model re-checks every 2-read segmentation
+//!   bad   well-formed prefix followed by one malformed frame
+//!
+//! Direct oracles on the implementation (no model involved)
+//!   O1 no panic, no hang (5 s)                       O2 #replies decoded from the output = #commands
+//!   O3 output = output of the same stream fed one command per read with batching disabled
+//!   O4 malformed frame: prefix replies intact, then >= 1 reply, all of them errors
+//!   O5 a reply is written by the read that completes its command (no reply is held back)
+use rand::seq::SliceRandom;
+use rand::Rng as _;
+use redis_sim::observability::{DatadogConfig, Metrics};
+use redis_sim::production::{ConnectionConfig, ConnectionPool, OptimizedConnectionHandler, ShardedActorState};
+use redis_sim::security::AclManager;
+use serde_json::json;
+use std::hash::{Hash, Hasher};
+use std::panic::{catch_unwind, AssertUnwindSafe};
+use std::sync::Arc;
+use vharness::conn::ScriptedStream;
+use vharness::util::*;
+
+const HEADER: &str = "From RV Require Import Corr.C04.\nLocal Open Scope string_scope.\nLocal Open Scope N_scope.\nLocal Open Scope list_scope.";
+const CFGS: [(usize, usize); 4] = [(60, 2), (70, 6), (1, 1), (1_000_000_000, 2)];
+const MAXBUF: usize = 1 << 20;
+
+struct Env {
+    rt: tokio::runtime::Runtime,
+    metrics: Arc<Metrics>,
+    keys: Vec<Vec<u8>>,
+    no_empty: bool,
+}
+
+#[derive(Clone, Debug, PartialEq)]
+enum Ran {
+    Ok(Vec<u8>, Vec<usize>), // all bytes written, cumulative length after each read
+    Panic(String),
+    Hang,
+}
+
+fn run(env: &Env, shards: usize, cfg: (usize, usize), chunks: &[Vec<u8>]) -> Ran {
+    let nreads = chunks.iter().filter(|c| !c.is_empty()).count();
+    let r = catch_unwind(AssertUnwindSafe(|| {
+        env.rt.block_on(async {
+            let state = ShardedActorState::with_shards(shards);
+            let (stream, written, marks) = ScriptedStream::new(chunks.to_vec());
+            let pool = ConnectionPool::new(2, 2);
+            let acl = Arc::new(parking_lot::RwLock::new(AclManager::new()));
+            let config = ConnectionConfig { max_buffer_size: MAXBUF, read_buffer_size: 65536, min_pipeline_buffer: cfg.0, batch_threshold: cfg.1 };
+            let h = OptimizedConnectionHandler::new(stream, state, "verif:0".to_string(), pool.buffer_pool(), env.metrics.clone(), config, acl, None);
+            let done = tokio::time::timeout(std::time::Duration::from_secs(5), h.run()).await.is_ok();
+            let w = written.lock().unwrap().clone();
+            let m = marks.lock().unwrap().clone();
+            (done, w, m)
+        })
+    }));
+    match r {
+        Err(e) => Ran::Panic(e.downcast_ref::<String>().cloned().or_else(|| e.downcast_ref::<&str>().map(|s| s.to_string())).unwrap_or_default()),
+        Ok((false, _, _)) => Ran::Hang,
+        Ok((true, w, m)) => {
+            let mut cum = vec![0usize; nreads];
+            for (reads, total) in m {
+                if reads >= 1 && reads <= nreads {
+                    for c in cum.iter_mut().skip(reads - 1) {
+                        *c = (*c).max(total);
+                    }
+                }
+            }
+            Ran::Ok(w, cum)
+        }
     }
+}
+
+/// end of the RESP value starting at `p`; None = incomplete or not RESP
+fn resp_end(b: &[u8], p: usize, depth: usize) -> Option<usize> {
+    if p >= b.len() || depth > 40 {
+        return None;
+    }
+    let line_end = |from: usize| -> Option<usize> { (from..b.len().saturating_sub(1)).find(|&i| b[i] == b'\r' && b[i + 1] == b'\n') };
+    match b[p] {
+        b'+' | b'-' | b':' => line_end(p).map(|e| e + 2),
+        b'$' => {
+            let e = line_end(p)?;
+            let n: i64 = std::str::from_utf8(&b[p + 1..e]).ok()?.parse().ok()?;
+            if n < 0 {
+                return Some(e + 2);
+            }
+            let end = e + 2 + n as usize + 2;
+            if end <= b.len() && &b[end - 2..end] == b"\r\n" { Some(end) } else { None }
+        }
+        b'*' => {
+            let e = line_end(p)?;
+            let n: i64 = std::str::from_utf8(&b[p + 1..e]).ok()?.parse().ok()?;
+            let mut q = e + 2;
+            for _ in 0..n.max(0) {
+                q = resp_end(b, q, depth + 1)?;
+            }
+            Some(q)
+        }
+        _ => None,
+    }
+}
+/// the replies in `out`: Some(list of (start,end)) iff `out` is a sequence of whole RESP values
+fn replies(out: &[u8]) -> Option<Vec<(usize, usize)>> {
+    let mut v = Vec::new();
+    let mut p = 0;
+    while p < out.len() {
+        let e = resp_end(out, p, 0)?;
+        v.push((p, e));
+        p = e;
+    }
+    Some(v)
+}
+
+fn enc(args: &[&[u8]]) -> Vec<u8> {
+    let mut v = format!("*{}\r\n", args.len()).into_bytes();
+    for a in args {
+        v.extend_from_slice(format!("${}\r\n", a.len()).as_bytes());
+        v.extend_from_slice(a);
+        v.extend_from_slice(b"\r\n");
+    }
+    v
+}
+
+fn hashes_agree(k: &[u8], n: u64) -> bool {
+    let mut h1 = std::collections::hash_map::DefaultHasher::new();
+    std::str::from_utf8(k).unwrap().hash(&mut h1);
+    let mut h2 = std::collections::hash_map::DefaultHasher::new();
+    k.hash(&mut h2);
+    h1.finish() % n == h2.finish() % n
+}
+/// keys of the given lengths on which hash_key(&str) and hash_key_bytes(&[u8]) pick the same one of 4
+/// shards (DESIGN section 4 row 1 is C03's defect, not C04's); plus one key that is not UTF-8
+fn key_alphabet() -> Vec<Vec<u8>> {
+    let mut keys = Vec::new();
+    for (len, want) in [(1usize, 2usize), (2, 1), (39, 1), (40, 1), (41, 1), (50, 1)] {
+        let mut found = 0;
+        for c in 0u32..100000 {
+            let suffix = if len == 1 { ((b'a' + (c % 26) as u8) as char).to_string() } else { format!("{}", c) };
+            if suffix.len() > len || (len == 1 && c >= 26) {
+                break;
+            }
+            let mut k = vec![b'k'; len - suffix.len()];
+            k.extend_from_slice(suffix.as_bytes());
+            if hashes_agree(&k, 4) {
+                keys.push(k);
+                found += 1;
+                if found == want {
+                    break;
+                }
+            }
+        }
+    }
+    keys.push(b"k\xff".to_vec());
+    keys
+}
+
+const VALS: [&[u8]; 8] = [b"v", b"", b"10", b"+5", b"a\r\nb", b"xxxxxxxxxxxxxxxxxxxxxxxxxxxxxx", b"yyyyyyyyyyyyyyyyyyyyyyyyyyyyyyyyyyyyyyyyyyyyy", b"-1"];
+
+fn case_name(rng: &mut Rng, n: &str) -> Vec<u8> {
+    match rng.gen_range(0..10) {
+        0..=5 => n.to_uppercase().into_bytes(),
+        6..=8 => n.to_lowercase().into_bytes(),
+        _ => n.bytes().enumerate().map(|(i, c)| if i % 2 == 0 { c.to_ascii_uppercase() } else { c.to_ascii_lowercase() }).collect(),
+    }
+}
+
+/// one well-formed command frame: (label, bytes)
+fn gen_cmd(env: &Env, rng: &mut Rng, in_multi: &mut bool, profile: u32) -> (String, Vec<u8>) {
+    let k = env.keys[..env.keys.len() - 1].choose(rng).unwrap().clone();
+    let v = VALS.choose(rng).unwrap().to_vec();
+    let c = match profile {
+        0 => rng.gen_range(0..4),  // GET/SET only
+        1 => rng.gen_range(0..20), // everything
+        _ => rng.gen_range(0..24), // with transactions
+    };
+    match c {
+        0 | 1 | 4 | 5 => {
+            let nm = case_name(rng, "get");
+            // occasionally a non-canonical but valid length line, or the non-UTF-8 key
+            match rng.gen_range(0..12) {
+                0 => {
+                    let mut f = b"*2\r\n$3\r\n".to_vec();
+                    f.extend_from_slice(&nm);
+                    f.extend_from_slice(format!("\r\n${}{}\r\n", ["+", "0", "00"].choose(rng).unwrap(), k.len()).as_bytes());
+                    f.extend_from_slice(&k);
+                    f.extend_from_slice(b"\r\n");
+                    ("get-noncanon".into(), f)
+                }
+                1 => ("get-nonutf8".into(), enc(&[&nm, env.keys.last().unwrap()])),
+                _ => ("get".into(), enc(&[&nm, &k])),
+            }
+        }
+        2 | 3 | 6 | 7 => {
+            let nm = case_name(rng, "set");
+            if rng.gen_range(0..14) == 0 {
+                ("set-nonutf8".into(), enc(&[&nm, env.keys.last().unwrap(), &v]))
+            } else {
+                ("set".into(), enc(&[&nm, &k, &v]))
+            }
+        }
+        8 => ("ping".into(), enc(&[&case_name(rng, "ping")])),
+        9 => ("echo".into(), enc(&[b"ECHO", &v])),
+        10 => ("incr".into(), enc(&[b"INCR", &k])),
+        11 => ("append".into(), enc(&[b"append", &k, &v])),
+        12 => {
+            let k2 = env.keys[..env.keys.len() - 1].choose(rng).unwrap().clone();
+            if rng.gen_bool(0.5) { ("del".into(), enc(&[b"DEL", &k])) } else { ("del2".into(), enc(&[b"DEL", &k, &k2])) }
+        }
+        13 => ("lpush".into(), enc(&[b"LPUSH", &k, &v, b"z"])),
+        14 => ("lrange".into(), enc(&[b"LRANGE", &k, b"0", [b"-1".as_ref(), b"0", b"1"].choose(rng).unwrap()])),
+        15 => ("unknown".into(), enc(&[b"FOO", &v])),
+        16 => ("arity".into(), enc(&[b"GET"])),
+        17 if !env.no_empty => ("empty-name".into(), enc(&[[b"".as_ref(), b" "].choose(rng).unwrap(), &k])),
+        17 => ("ping".into(), enc(&[b"PING"])),
+        18 => {
+            if rng.gen_bool(0.5) { ("get3".into(), enc(&[b"GET", &k, &v])) } else { ("config-crlf".into(), enc(&[b"CONFIG", [b"x\r\n+OK".as_ref(), b"a\nb", b"bogus"].choose(rng).unwrap()])) }
+        }
+        19 => ("inline-frame".into(), [b"+OK\r\n".to_vec(), b":1\r\n".to_vec(), b"$-1\r\n".to_vec(), b"*0\r\n".to_vec(), b"*-1\r\n".to_vec()].choose(rng).unwrap().clone()),
+        20 | 21 => {
+            if *in_multi {
+                *in_multi = false;
+                if rng.gen_bool(0.8) { ("exec".into(), enc(&[b"EXEC"])) } else { ("discard".into(), enc(&[b"DISCARD"])) }
+            } else {
+                *in_multi = true;
+                ("multi".into(), enc(&[b"MULTI"]))
+            }
+        }
+        22 => ("watch".into(), enc(&[b"WATCH", &k])),
+        _ => ("exec".into(), { *in_multi = false; enc(&[b"EXEC"]) }),
+    }
+}
+
+fn gen_malformed(env: &Env, rng: &mut Rng) -> (String, Vec<u8>) {
+    let k = env.keys[0].clone();
+    let big = ["18446744073709551615", "18446744073709551614", "9223372036854775808", "18446744073709551616", "99999999999999999999999"];
+    match rng.gen_range(0..13) {
+        0 => ("bad-type".into(), b"?2\r\n$3\r\nGET\r\n$1\r\nk\r\n".to_vec()),
+        1 => ("bad-array-len".into(), b"*x\r\n$3\r\nGET\r\n".to_vec()),
+        2 => ("bad-bulk-len".into(), format!("*2\r\n$3\r\n{}\r\n$1x\r\nk\r\n", ["GET", "get", "FOO"].choose(rng).unwrap()).into_bytes()),
+        3 => ("huge-len-get".into(), format!("*2\r\n$3\r\n{}\r\n${}\r\nk\r\n", ["GET", "get"].choose(rng).unwrap(), big.choose(rng).unwrap()).into_bytes()),
+        4 => ("huge-len-set-key".into(), format!("*3\r\n$3\r\nSET\r\n${}\r\nk\r\n$1\r\nv\r\n", big.choose(rng).unwrap()).into_bytes()),
+        5 => ("huge-len-set-val".into(), format!("*3\r\n$3\r\nset\r\n$1\r\nk\r\n${}\r\nv\r\n", big.choose(rng).unwrap()).into_bytes()),
+        6 => ("neg-len".into(), format!("*2\r\n$3\r\nGET\r\n$-{}\r\nk\r\n", rng.gen_range(2..9)).into_bytes()),
+        7 => ("cr-no-lf-get".into(), b"*2\r\n$3\r\nGET\r\n$1\rXk\r\n".to_vec()),
+        8 => ("cr-no-lf-set".into(), b"*3\r\n$3\r\nSET\r\n$1\r\nk\r\n$1\rXv\r\n".to_vec()),
+        9 => ("cr-no-lf-hdr".into(), b"*2\rX\r\n$3\r\nGET\r\n".to_vec()),
+        10 => {
+            // one stray byte after the command name: the frame the recognisers of the pinned tree accept
+            let x = *[b'X', b'$', b'0', b'\r'].choose(rng).unwrap();
+            let mut f = format!("*2\r\n$3\r\n{}\r\n", ["GET", "get"].choose(rng).unwrap()).into_bytes();
+            f.push(x);
+            f.extend_from_slice(format!("${}\r\n", k.len()).as_bytes());
+            f.extend_from_slice(&k);
+            f.extend_from_slice(b"\r\n");
+            ("stray-byte-get".into(), f)
+        }
+        11 => {
+            let mut f = format!("*3\r\n$3\r\n{}\r\nX", ["SET", "set"].choose(rng).unwrap()).into_bytes();
+            f.extend_from_slice(format!("${}\r\n", k.len()).as_bytes());
+            f.extend_from_slice(&k);
+            f.extend_from_slice(b"\r\n$1\r\nv\r\n");
+            ("stray-byte-set".into(), f)
+        }
+        _ => {
+            let mut f = format!("*2\r\n$3\r\nGET\r\nX${}\r\n", big.choose(rng).unwrap()).into_bytes();
+            f.extend_from_slice(b"k\r\n");
+            ("stray-byte-huge".into(), f)
+        }
+    }
+}
+
+struct Stream {
+    frames: Vec<(String, Vec<u8>)>,
+    bad: Option<(String, Vec<u8>)>,
+}
+impl Stream {
+    fn bytes(&self) -> Vec<u8> {
+        let mut v: Vec<u8> = self.frames.iter().flat_map(|f| f.1.clone()).collect();
+        if let Some(b) = &self.bad {
+            v.extend_from_slice(&b.1);
+        }
+        v
+    }
+}
+
+fn gen_stream(env: &Env, rng: &mut Rng, short: bool, malformed: bool) -> Stream {
+    let mut frames = Vec::new();
+    let mut in_multi = false;
+    let shape = rng.gen_range(0..4);
+    if short {
+        let n = rng.gen_range(1..4);
+        for _ in 0..n {
+            let f = gen_cmd(env, rng, &mut in_multi, if shape == 0 { 1 } else { 0 });
+            if frames.iter().map(|x: &(String, Vec<u8>)| x.1.len()).sum::<usize>() + f.1.len() <= 80 {
+                frames.push(f);
+            }
+        }
+        if frames.is_empty() {
+            frames.push(("ping".into(), enc(&[b"PING"])));
+        }
+    } else {
+        match shape {
+            0 | 1 => {
+                // runs of GETs and SETs with counts around the thresholds, other commands in between
+                let runs = rng.gen_range(1..5);
+                for _ in 0..runs {
+                    let n = rng.gen_range(0..9);
+                    let p = rng.gen_range(0..2);
+                    for _ in 0..n {
+                        let mut f = gen_cmd(env, rng, &mut in_multi, 0);
+                        while p == 0 && !f.0.starts_with("get") || p == 1 && !f.0.starts_with("set") {
+                            f = gen_cmd(env, rng, &mut in_multi, 0);
+                        }
+                        frames.push(f);
+                    }
+                    if rng.gen_bool(0.6) {
+                        frames.push(gen_cmd(env, rng, &mut in_multi, 1));
+                    }
+                }
+            }
+            2 => {
+                for _ in 0..rng.gen_range(1..14) {
+                    frames.push(gen_cmd(env, rng, &mut in_multi, 1));
+                }
+            }
+            _ => {
+                for _ in 0..rng.gen_range(1..16) {
+                    frames.push(gen_cmd(env, rng, &mut in_multi, 2));
+                }
+            }
+        }
+        if frames.is_empty() {
+            frames.push(gen_cmd(env, rng, &mut in_multi, 0));
+        }
+    }
+    let bad = if malformed { Some(gen_malformed(env, rng)) } else { None };
+    Stream { frames, bad }
+}
+
+fn cut(bytes: &[u8], cuts: &[usize]) -> Vec<Vec<u8>> {
+    let mut v = Vec::new();
+    let mut p = 0;
+    for &c in cuts {
+        if c > p && c < bytes.len() {
+            v.push(bytes[p..c].to_vec());
+            p = c;
+        }
+    }
+    v.push(bytes[p..].to_vec());
+    v
+}
+
+fn cfg_term(c: (usize, usize)) -> String {
+    format!("(mk_cfg {} {} {})", c.0, c.1, MAXBUF)
+}
+
+fn main() {
+    let argv: Vec<String> = std::env::args().skip(1).collect();
+    let args = Args::parse(&argv);
+    std::panic::set_hook(Box::new(|_| {}));
+    let env = Env {
+        rt: tokio::runtime::Builder::new_current_thread().enable_all().build().unwrap(),
+        metrics: Arc::new(Metrics::new(&DatadogConfig::from_env())),
+        keys: key_alphabet(),
+        no_empty: args.get("no_empty", 0) == 1,
+    };
+    let mut out = Out::new(&args.out, "C04", args.shards, HEADER);
+    out.nontrivial_rule = "a case counts when its stream holds at least two commands or a malformed frame and the implementation wrote at least one reply; distinct by (config, shards, reads, output)".into();
+    let exh_every = args.get("exh_every", 40);
+    for i in 0..args.n {
+        if let Some(o) = args.only {
+            if o != i {
+                continue;
+            }
+        }
+        let mut rng = case_rng(args.seed, i);
+        let shards = if rng.gen_bool(0.5) { 1 } else { 4 };
+        let cfg = CFGS[rng.gen_range(0..CFGS.len())];
+        let kind = if i % exh_every == exh_every - 1 { "all2" } else if rng.gen_range(0..5) == 0 { "bad" } else { "seg" };
+        let st = gen_stream(&env, &mut rng, kind == "all2", kind == "bad");
+        let bytes = st.bytes();
+        let wf: Vec<u8> = st.frames.iter().flat_map(|f| f.1.clone()).collect();
+        out.count(&format!("kind:{}", kind));
+        out.count(&format!("cfg:{}/{}", cfg.0, cfg.1));
+        out.count(&format!("shards:{}", shards));
+        for f in &st.frames {
+            out.count(&format!("cmd:{}", f.0));
+        }
+        if let Some(b) = &st.bad {
+            out.count(&format!("bad:{}", b.0));
+        }
+        // reference: one command per read, batching disabled, fresh backend
+        let ref_chunks: Vec<Vec<u8>> = st.frames.iter().map(|f| f.1.clone()).collect();
+        let reference = run(&env, shards, (1_000_000_000, 2), &ref_chunks);
+        out.impl_checks += 1;
+        let (ref_out, ref_cum) = match &reference {
+            Ran::Ok(w, c) => (w.clone(), c.clone()),
+            other => {
+                out.violation(i, "O1: the handler panicked or hung on a stream of well-formed commands fed one per read", json!({"result": format!("{:?}", other), "frames": st.frames.iter().map(|f| hex(&f.1)).collect::<Vec<_>>()}));
+                (Vec::new(), Vec::new())
+            }
+        };
+        // O2 on the reference run itself
+        match replies(&ref_out) {
+            Some(r) if r.len() == st.frames.len() => {}
+            r => {
+                if matches!(reference, Ran::Ok(..)) {
+                    out.violation(i, "O2: one command per read: number of replies differs from number of commands", json!({"commands": st.frames.len(), "replies": r.map(|x| x.len()), "out": hex(&ref_out), "frames": st.frames.iter().map(|f| hex(&f.1)).collect::<Vec<_>>()}));
+                }
+            }
+        }
+        let detail = |chunks: &[Vec<u8>], got: &Ran| json!({"config": [cfg.0, cfg.1], "shards": shards, "reads": chunks.iter().map(|c| hex(c)).collect::<Vec<_>>(), "got": format!("{:?}", got).chars().take(600).collect::<String>(), "reference_output": hex(&ref_out), "labels": st.frames.iter().map(|f| f.0.clone()).chain(st.bad.iter().map(|b| b.0.clone())).collect::<Vec<_>>()});
+        if kind == "all2" {
+            // every segmentation into 1, 2, 3 reads
+            let l = bytes.len();
+            let mut all_ok = true;
+            let mut nseg = 0u64;
+            'outer: for a in 0..=l {
+                for b in a..=l {
+                    let chunks = cut(&bytes, &[a, b]);
+                    let got = run(&env, shards, cfg, &chunks);
+                    nseg += 1;
+                    out.impl_checks += 1;
+                    let ok = matches!(&got, Ran::Ok(w, _) if *w == ref_out);
+                    if !ok {
+                        all_ok = false;
+                        let what = match got { Ran::Panic(_) => "O1: the handler panicked", Ran::Hang => "O1: the handler hung", _ => "O3: output differs from the one-command-per-read reference (a segmentation into <= 3 reads)" };
+                        out.violation(i, what, detail(&chunks, &got));
+                        break 'outer;
+                    }
+                }
+            }
+            out.count("all2:segmentations_run_x1000");
+            *out.dist.entry("all2:segmentations".into()).or_insert(0) += nseg;
+            let term = format!("(KAll {} {} {})", cfg_term(cfg), chex(&bytes), chex(&ref_out));
+            out.case(i, term, st.frames.len() >= 2 && !ref_out.is_empty(), &format!("{:?}{}{}{}", cfg, shards, hex(&bytes), all_ok));
+            if args.only.is_some() {
+                println!("stream {}\nreference output {}\nall segmentations into <=3 reads agree: {}", hex(&bytes), hex(&ref_out), all_ok);
+            }
+            continue;
+        }
+        // one segmentation
+        let l = bytes.len();
+        let chunks: Vec<Vec<u8>> = match rng.gen_range(0..6) {
+            0 => vec![bytes.clone()],
+            1 => st.frames.iter().map(|f| f.1.clone()).chain(st.bad.iter().map(|b| b.1.clone())).collect(),
+            2 => {
+                let a = rng.gen_range(0..=l);
+                cut(&bytes, &[a])
+            }
+            _ => {
+                let k = rng.gen_range(1..(2 + l / 12).min(12));
+                let mut cs: Vec<usize> = (0..k).map(|_| rng.gen_range(0..=l)).collect();
+                cs.sort();
+                cs.dedup();
+                cut(&bytes, &cs)
+            }
+        };
+        let chunks: Vec<Vec<u8>> = chunks.into_iter().filter(|c| !c.is_empty()).collect();
+        out.count(&format!("reads:{}", chunks.len().min(9)));
+        let got = run(&env, shards, cfg, &chunks);
+        out.impl_checks += 1;
+        let (term_out, term_cum, term_dead) = match &got {
+            Ran::Ok(w, c) => (w.clone(), c.clone(), false),
+            _ => (Vec::new(), Vec::new(), true),
+        };
+        match &got {
+            Ran::Panic(_) => out.violation(i, "O1: the handler panicked", detail(&chunks, &got)),
+            Ran::Hang => out.violation(i, "O1: the handler hung", detail(&chunks, &got)),
+            Ran::Ok(w, cum) => {
+                if kind == "seg" {
+                    if *w != ref_out {
+                        let n = replies(w).map(|r| r.len());
+                        let what = if n != Some(st.frames.len()) { "O2/O3: number of replies differs from number of commands (output differs from the one-command-per-read reference)" } else { "O3: output differs from the one-command-per-read reference" };
+                        out.violation(i, what, detail(&chunks, &got));
+                    } else {
+                        // O5: after each read, every command completed so far has been answered
+                        let mut fed = 0usize;
+                        let mut ends = Vec::new();
+                        let mut p = 0;
+                        for f in &st.frames {
+                            p += f.1.len();
+                            ends.push(p);
+                        }
+                        for (ri, c) in chunks.iter().enumerate() {
+                            fed += c.len();
+                            let done = ends.iter().filter(|&&e| e <= fed).count();
+                            let want = if done == 0 { 0 } else { ref_cum[done - 1] };
+                            if cum[ri] != want {
+                                out.violation(i, "O5: a reply was not written by the read that completed its command", detail(&chunks, &got));
+                                break;
+                            }
+                        }
+                    }
+                } else {
+                    // O4
+                    let ok_prefix = w.len() >= ref_out.len() && w[..ref_out.len()] == ref_out[..];
+                    let tail = if ok_prefix { replies(&w[ref_out.len()..]) } else { None };
+                    let ok_tail = match &tail {
+                        Some(t) => !t.is_empty() && t.iter().all(|(s, _)| w[ref_out.len() + s] == b'-'),
+                        None => false,
+                    };
+                    if !(ok_prefix && ok_tail) {
+                        let what = if !ok_prefix { "O4: a malformed frame altered the replies to earlier commands" } else if tail.as_ref().map(|t| t.is_empty()).unwrap_or(false) { "O4: a malformed frame got no reply (silence)" } else { "O4: a malformed frame was answered with something other than error replies" };
+                        out.violation(i, what, detail(&chunks, &got));
+                    }
+                }
+            }
+        }
+        let term = format!("(KSeg {} {} {} {} {})", cfg_term(cfg), clist(chunks.iter(), |c| chex(c)), clist(term_cum.iter(), |c| c.to_string()), chex(&term_out), cbool(term_dead));
+        let nontrivial = (st.frames.len() >= 2 || st.bad.is_some()) && !term_out.is_empty();
+        out.case(i, term, nontrivial, &format!("{:?}{}{}{}", cfg, shards, chunks.iter().map(|c| hex(c)).collect::<Vec<_>>().join("|"), hex(&term_out)));
+        out.sample(json!({"config": [cfg.0, cfg.1], "shards": shards, "reads": chunks.iter().map(|c| String::from_utf8_lossy(c).to_string()).collect::<Vec<_>>(), "output": String::from_utf8_lossy(&term_out), "kind": kind}));
+        if args.only.is_some() {
+            println!("kind {} config {:?} shards {} labels {:?}", kind, cfg, shards, st.frames.iter().map(|f| f.0.clone()).chain(st.bad.iter().map(|b| b.0.clone())).collect::<Vec<_>>());
+            for c in &chunks {
+                println!("read  {:?}", String::from_utf8_lossy(c));
+            }
+            println!("implementation: {}", format!("{:?}", got).chars().take(1500).collect::<String>());
+            println!("output as text: {:?}", String::from_utf8_lossy(&term_out));
+            println!("reference (one command per read, batching off): {:?}", String::from_utf8_lossy(&ref_out));
+            let _ = wf;
+        }
+    }
+    out.finish(args.seed);
 }
